@@ -18,12 +18,12 @@ CLAIMED = {
          "Generated kernel / dbus-daemon records of every class the tool maps, with names drawn from path families around every generalisation rewrite (home dirs, lib and bin dirs incl. shells and look-alikes, multiarch triples, /proc pids and tids, pci and block devices, udev data, uuid / hex / decimal runs at every threshold length, case variants) go through logs.New + ParseToProfiles + Merge/Sort/Format; for file, exec and link records the generated rules are compiled by the reference parser over the shipped tunables and the recorded name must be granted the requested permissions in the owner or other half according to fsuid/ouid; for the other classes the recorded values must be in a rule of the right kind and qualifier.",
          "Trusts apparmor_parser 3.0.8 + the shipped tunables and the DFA interpreter (self-tested); names under /att/ (attach_disconnected.path, a disabled builder) and shared objects right under a lib directory (documented noise, C14) are outside the generator; pids are at most pid_max. One listed known finding (exec record with a target) is excluded and kept under a fixed witness.",
          "DESIGN.md §2 C16"),
- "C07": ("rapid property-based testing of generated directive arguments against independent models (dbus predicate, exec language equality judged by the reference parser, stack line model) plus a sweep of real builds for leftover directives",
-         "Real builds (30 cells thorough, 4 quick) are swept for surviving '#aa:' markers. Generated dbus directives are read back by an independent tokenizer and checked against the predicate of docs/development/dbus.md (bus, bind, path, interfaces, directions, peer label), every 5th case also by the reference parser. Generated profile sets exercise exec (1-3 targets, 7 transition spellings: the generated rules must compile to the same file automaton as the targets' own @{exec_path}) and stack (1-3 stacked profiles, X and non-X, bodies with look-alike rules: line model of what is inserted, where, in which order), each expanded four times in one process.",
+ "C07": ("rapid property-based testing of generated directive arguments against independent models (dbus predicate, exec language equality judged by the reference parser, stack line model) plus a locality relation for several directives in one file (metamorphic) and a sweep of real builds for leftover directives",
+         "Real builds (30 cells thorough, 4 quick) are swept for surviving '#aa:' markers. Generated dbus directives are read back by an independent tokenizer and checked against the predicate of docs/development/dbus.md (bus, bind, path, interfaces, directions, peer label), every 5th case also by the reference parser. Generated profile sets exercise exec (1-3 targets, 7 transition spellings: the generated rules must compile to the same file automaton as the targets' own @{exec_path}) and stack (1-3 stacked profiles, X and non-X, bodies with look-alike rules: line model of what is inserted, where, in which order), each expanded several times in one process. Hosts with 2-3 dbus / exec directives - in half of the cases one directive line a textual prefix of another - must expand to the splice of what each directive yields alone.",
          "Trusts the tokenizer/predicate and the stack line model in c07_test.go, apparmor_parser 3.0.8 for exec language equality; stacked bodies in the line model hold no directives of their own (directives inside stacked profiles are covered by the leftovers sweep on the real systemd profiles).",
          "DESIGN.md §2 C07"),
  "C06": ("differential against the reference parser: compiled attachment automata of '@{exec_path}' vs. the resolved literal (product walk with shortest witness), enumerated over the shipped profiles x distributions and rapid-generated preambles",
-         "For real builds (5 distributions thorough; 2 distributions x all profiles quick) every profile with a resolved @{exec_path} attachment is compared with the reference parser's own expansion: two stub profiles - the file's own preamble with the variable and with the literal header attachment - are compiled over upstream + built tunables and their attachment automata must be equivalent on all path names. Generated preambles (local variables, several values, appends, nested shipped tunables) go through the userspace builder in-process with the same oracle. The exec-directive half of the statement is decided by the exec stage shared with C07.",
+         "For real builds (5 distributions thorough; 2 distributions x all profiles quick) every profile with a resolved @{exec_path} attachment is compared with the reference parser's own expansion: two stub profiles - the file's own preamble with the variable and with the literal header attachment - are compiled over upstream + built tunables and their attachment automata must be equivalent on all path names. Generated preambles (local variables, several values, appends, nested shipped tunables, in half of the cases after another profile that appends to built-in variables in the same process) go through the userspace builder in-process with the same oracle. The exec-directive half of the statement is decided by the exec stage shared with C07.",
          "Trusts apparmor_parser 3.0.8, the blob/DFA reader (self-tested on every run) and the product walk; equivalence is over kernel path names (no NUL, no empty component). The built-in variable table drift (HOME, user_share_dirs, version, arch, opensuse multiarch) is a listed known finding: 11 shipped profiles by name, the opensuse class by its witness, and the corresponding variables are excluded from the generated preambles.",
          "DESIGN.md §2 C06"),
  "C08": ("exhaustive enumeration of the 30 name-relevant builds with the real binary, scanned by an independent reference-graph scanner (definitions vs. named uses), plus a complete source-side scan of directives and manifests",
@@ -34,13 +34,13 @@ CLAIMED = {
          "For all 60 (distribution, ABI, version incl. cross pairs, full) configurations on the shipped tree, and for 400 (quick) / 8000 (thorough) generated source trees in one drawn configuration each, the real binary (built with -tags verif, stopped after cli.Prepare by the VERIF_PREPARE_ONLY hook, started over a polluted build directory) is compared with a model written from docs/development/build.md, workflow.md and the statement: expected file set (ignore lists, flattening, configure deltas, overwrite renames + disable/ links, full-system-policy installs, drop-ins), no clashing output names, and contents equal to the source except for manifest flags and the two documented --full edits. Both directions: nothing missing, nothing extra.",
          "Trusts the prepare model in c04_test.go. The hook only adds an early exit after cli.Prepare() in the real main package, so the task list registered by main.go's init() is what runs. Generated trees stay inside what the shipped tree shows to be accepted (one level below group directories, the full-system-policy group always ignored by path, unique names unless dropped by an ignore list, single-blank manifest lines).",
          "DESIGN.md §2 C04"),
- "C02": ("rapid stateful testing over build-directory histories with the real binary (model: a fresh build), repeated fresh builds in separate processes, and generated processing orders in fresh child processes",
-         "Histories (earlier builds of other configurations and nine kinds of pollution of .build, then a final build) are generated by rapid and the final manifest must equal that of a fresh build; k fresh builds per configuration in separate processes must agree (each process draws its own map iteration orders); the prepare-stage tree of a real --full build is processed by child processes in generated subsets and orders, and every file's output digest must not depend on what was processed before it.",
+ "C02": ("rapid stateful testing over build-directory histories with the real binary (model: a fresh build), repeated fresh builds in separate processes, generated processing orders in fresh child processes, and generated source trees in which the same profile stands before and after the profiles it names (twins, real binary)",
+         "Histories (earlier builds of other configurations and nine kinds of pollution of .build, then a final build) are generated by rapid and the final manifest must equal that of a fresh build; k fresh builds per configuration in separate processes must agree (each process draws its own map iteration orders); the prepare-stage tree of a real --full build is processed by child processes in generated subsets and orders, and every file's output digest must not depend on what was processed before it; generated source trees with a stack / exec host and a variable user written twice, around their targets and around a profile appending to built-in variables, are built by the real binary and the two copies must be equal up to the name; generated dbus / exec / stack directives are expanded repeatedly in one process.",
          "Map-order dependence is probabilistic per run: a two-way dependence escapes k repetitions with probability 2^(1-k) (k = 3 quick, 8 thorough). The order check re-implements cli.Build's per-file loop (builder.Run then directive.Run) in a child process of the test binary.",
          "DESIGN.md §2 C02"),
  "C05": ("metamorphic comparison of real builds in the three modes (none / complain / enforce) read by an independent header scanner, plus rapid-generated multi-block profiles through the in-process builder chain",
-         "For every (distribution, ABI, version, full) cell - all 30 in thorough, a covering sample of 4 in quick - the shipped tree is built three times with the real binary and every block header of every file is compared across modes: same header apart from flags, flags(complain) = flags(none) + complain, flags(enforce) = flags(none) - complain. Generated files (1-4 blocks, sub-profiles and hats with their own flags, separators ',' and ', ', glued braces, xattrs, quoted names) go through the in-process chain with the same oracle, and their non-header lines must not depend on the mode.",
-         "Trusts the header scanner in c05_test.go (block header = line ending in '{' whose first token is profile, hat or starts with '^'). The none-build is the baseline, so whatever the flags manifests do is taken as given.",
+         "For every (distribution, ABI, version, full) cell - all 30 in thorough, a covering sample of 4 in quick - the shipped tree is built three times with the real binary and every block header of every file is compared across modes: same header apart from flags, flags(complain) = flags(none) + complain, flags(enforce) = flags(none) - complain; the flags of the none build equal the manifest entry where the prepare model finds one for the file and the source flags otherwise. Generated files (1-4 blocks, sub-profiles and hats with their own flags, separators ',' and ', ', glued braces, xattrs, quoted names) go through the in-process chain with the same oracle, and their non-header lines must not depend on the mode.",
+         "Trusts the header scanner in c05_test.go (block header = line ending in '{' whose first token is profile, hat or starts with '^'). Which source file and manifest entry stand behind a built file comes from C04's prepare model.",
          "DESIGN.md §2 C05"),
  "C01": ("enumeration of build configurations with the real binary, every built file judged by the reference parser apparmor_parser 3.0.8 (differential against the reference implementation)",
          "The shipped tree is built with the real prebuild binary - all 90 primary configurations in thorough (plus full DFA compilation of 10), a seeded covering sample of 8 in quick - and every top-level policy file of each build is parsed by the reference parser over an overlay of the upstream policy directory and the build output; abstractions, tunables and mappings are exercised through the include closure of the profiles, which is measured and reported. For ABI 4 only the normalisation the property grants is applied.",
@@ -62,8 +62,8 @@ CLAIMED = {
          "Generated search: 1-4 records per file built from known field values (any key order, any subset of optional fields, values with spaces, '=', '#', ',', control bytes, UTF-8, hex-looking values, look-alike keys such as hostname/srcname, malformed records in front), encoded as the kernel's audit_log_untrustedstring or dbus-daemon would; logs.New must return, for every well-formed record, exactly those values and no others. 25k files per quick run.",
          "Trusts the encoder model in c15_test.go (hex when a byte is < 0x21, > 0x7e or '\"'); profile/name/target values come from an alphabet that the documented generalisation leaves alone (generalisation is C16's subject); pid/peer_pid are not compared. One listed known finding is excluded by construction (hex value containing a double quote) and kept under a fixed witness.",
          "DESIGN.md §2 C15"),
- "C03": ("rapid property-based testing: generated directive-bearing texts x 15 targets vs. an independent line model; exhaustive enumeration of the shipped uses x 15 targets",
-         "Generated search: profile/sub-profile/abstraction/tunable texts from a segment model (unguarded lines, inline and paragraph directives, repeated identical directives, 1-3 filters from distributions, families, ABI, version and non-matching words) for one of the 15 (distribution, ABI, version) targets; the non-blank lines produced by directive.Run must equal those of an independent model written from the documentation, and no marker may survive. The 43 shipped uses are enumerated completely against all 15 targets with the same oracle.",
+ "C03": ("rapid property-based testing: generated directive-bearing texts x 30 targets vs. an independent line model; exhaustive enumeration of the shipped uses x 30 targets; real builds judged line by line",
+         "Generated search: profile/sub-profile/abstraction/tunable texts from a segment model (unguarded lines, inline and paragraph directives, repeated identical directives, 1-3 filters from distributions, families, ABI, version and non-matching words) for one of the 30 (distribution, ABI, version incl. cross pairs) targets; the non-blank lines produced by directive.Run must equal those of an independent model written from the documentation, and no marker may survive. The 43 shipped uses are enumerated completely against all 30 targets with the same oracle. Real builds (7 configurations quick, 30 thorough): every guarded rule line that is unique in its file must be present in the built file exactly when the program's own target (DISTRIBUTION -> family table, --abi, --version) matches the filter list.",
          "Trusts the line model in c03_test.go (family table from docs/development/directives.md); blank lines are not compared (the implementation legitimately leaves an empty line where a rule was). In-process the target globals are set directly; the CLI plumbing and the real family table are covered by the real-build stage.",
          "DESIGN.md §2 C03"),
  "C13": ("rapid property-based testing: generated preambles vs. an independent cartesian expander and the reference parser's own variable expansion (differential)",
